@@ -14,7 +14,7 @@ RULE = ("stash_become profile: a target module stashing told / published (NORMAL
            "RUNNING; stack empty after stop. non-trivial = scenario with an invocation under an installed handler")
         + "; distinct = hash of the trace")
 ASSUME = ["handler identity is observable because the harness registers four distinct handler functions", "event identity = (kind, sender, topic, unique payload, user data)",
-          "-EAGAIN (token bucket) is never configured in this profile", "vf/model_stash_become.py", "VERIF_SEED"]
+          "a call refused with -EAGAIN (a third of the targets are throttled) must leave stash and handler stack untouched", "vf/model_stash_become.py", "VERIF_SEED"]
 
 
 def run(tier):
